@@ -118,9 +118,9 @@ def run(ctx):
                          methods=BOTH, rms=(False, True), precids=(0, 1), fprecids=(0, 1), priorids=(1,),
                          foldsrcs=('explicit', 'default'), emitmod=2 if thorough else 4, invs=NOCOEF), 30),
         ('cv_perm', dict(mode='cv', nobs=4, nch=2, nlab=2, nfold=3, datasrc='cat', dataids=(3,),
-                         methods=BOTH, rms=(False, True) if thorough else (True,), precids=(0, 2), fprecids=(0, 2),
-                         priorids=(1, 3) if thorough else (3,),
-                         foldsrcs=('explicit', 'default'), permlevel=1, agree=True, emitmod=2), 0),
+                         methods=BOTH, rms=(False, True), precids=(0, 2) if thorough else (0,), fprecids=(0, 2),
+                         priorids=(1, 3), foldsrcs=('explicit', 'default') if thorough else ('explicit',),
+                         permlevel=1, agree=True, emitmod=2), 0),
     ]
     if thorough:
         runs += [
@@ -156,7 +156,7 @@ def run(ctx):
             first = False
         v = next(r.iter_emitted())
         ctx.sample({'run': name, 'in': v['in'], 'expected': v['out']}, cap=8)
-        total += replay(ctx, r, PID, nfloat=nfloat if thorough else nfloat * 3)
+        total += replay(ctx, r, PID, nfloat=nfloat if thorough else nfloat * 3, want=kw)
     ctx.extra['vectors_replayed'] = total
     # clause d: coefficient extraction on every enumerated design (data irrelevant: one zero matrix)
     coef_runs = [('cv_coef6', dict(mode='cv', nobs=6, nch=1, nlab=3, nfold=3, datasrc='cat', dataids=(5,),
@@ -180,5 +180,6 @@ def run(ctx):
                         'coef_pair1': v['coef'][0]}, cap=8)
         nd += coef_replay(ctx, r, every=every)
     ctx.extra['designs_coefficient_extracted'] = nd
-    n = record_and_validate(ctx, PID, ['cv'], 2000 if thorough else 300)
+    # 'cvmany': default folds with 11-12 repetitions (two-digit fold numbers), all label types
+    n = record_and_validate(ctx, PID, ['cv', 'cv', 'cv', 'cv', 'cvmany'], 2000 if thorough else 300)
     ctx.extra['recorded_executions_validated'] = n
